@@ -1,6 +1,6 @@
 (* C05 - pinned statements (SetSketch: registers are maxima, merge = union, lower bound sound). *)
 From Coq Require Import List ZArith Bool.
-From PMH Require Import Lib.ListArr Model.SetSketch Proofs.SetSketch Model.ProbMinHash Proofs.ProbMinHash
+From PMH Require Import Lib.ListArr Model.SetSketch Proofs.SetSketch Proofs.SetMergeLaws Model.ProbMinHash Proofs.ProbMinHash
   Model.SuperMinHash Proofs.SuperMinHash Gen.FlagsSmh.
 Import ListNotations.
 Open Scope Z_scope.
@@ -79,6 +79,23 @@ Theorem C05_superminhash_union_is_min : forall (F : Z -> Z), (forall a b, a <= b
   forall x, (x < m)%nat -> fst (nthp (sm_h s12) x) = Z.min (fst (nthp (sm_h s1) x)) (fst (nthp (sm_h s2) x)).
 Proof. exact smh_union_is_min. Qed.
 
+(* merge is commutative, associative and idempotent on the registers *)
+Theorem C05_merge_commutative : forall s o, length (regs s) = length (regs o) ->
+  params_mergeable (ss_par s) (ss_par o) = true -> params_mergeable (ss_par o) (ss_par s) = true ->
+  regs (merged s o) = regs (merged o s).
+Proof. exact merge_commutative. Qed.
+
+Theorem C05_merge_associative : forall a b c, length (regs a) = length (regs b) -> length (regs b) = length (regs c) ->
+  params_mergeable (ss_par a) (ss_par b) = true -> params_mergeable (ss_par a) (ss_par c) = true ->
+  params_mergeable (ss_par b) (ss_par c) = true ->
+  regs (merged (merged a b) c) = regs (merged a (merged b c)).
+Proof. exact merge_associative. Qed.
+
+Theorem C05_merge_idempotent : forall s o, length (regs s) = length (regs o) ->
+  params_mergeable (ss_par s) (ss_par o) = true ->
+  regs (merged (merged s o) o) = regs (merged s o) /\ (params_mergeable (ss_par s) (ss_par s) = true -> regs (merged s s) = regs s).
+Proof. exact merge_idempotent. Qed.
+
 Print Assumptions C05_superminhash_source_flag.
 Print Assumptions C05_superminhash_is_min.
 Print Assumptions C05_superminhash_union_is_min.
@@ -93,3 +110,6 @@ Print Assumptions C05_merge_is_union.
 Print Assumptions C05_merge_equals_sketch_of_union.
 Print Assumptions C05_merge_registers.
 Print Assumptions C05_merge_refused.
+Print Assumptions C05_merge_commutative.
+Print Assumptions C05_merge_associative.
+Print Assumptions C05_merge_idempotent.
